@@ -285,6 +285,24 @@ class VSocket:
                     raise BlockingIOError(errno.EAGAIN, 'Resource temporarily unavailable')
             raise OSError(errno.ENOTCONN, 'Transport endpoint is not connected')
         r = self.conn.to_tool(size)
+        while isinstance(r, tuple) and r and r[0] == 'delay':
+            # the next bytes are d (virtual) seconds away
+            d = r[1]
+            if d == 'timeout':      # at the very moment the timeout this receive call waits under runs out (still in time)
+                d = self.timeout if (self.blocking and self.timeout) else 0.0
+            if not self.blocking:
+                self.conn.pop_delay()
+                w.advance(d)
+                raise BlockingIOError(errno.EAGAIN, 'Resource temporarily unavailable')
+            if self.timeout is None or d <= self.timeout:
+                w.advance(d)
+                self.conn.pop_delay()
+                r = self.conn.to_tool(size)
+                continue
+            w.advance(self.timeout)
+            self.conn.reduce_delay(self.timeout)
+            w.event('recv-timeout', self.fd)
+            raise _socket.timeout('timed out')
         if r is None:
             if not self.blocking:
                 raise BlockingIOError(errno.EAGAIN, 'Resource temporarily unavailable')
@@ -465,7 +483,14 @@ class _FakeSystemRandom:
 
 socket_facade = _Facade(_socket, socket=_f_socket, getaddrinfo=_f_getaddrinfo)
 select_facade = _Facade(_select, select=_f_select)
-time_facade = _Facade(_time, time=_f_time, sleep=_f_sleep)
+def _f_monotonic():
+    w = current()
+    w.tick('time')
+    w.advance(1e-4)
+    return 1000.0 + w.clock
+
+
+time_facade = _Facade(_time, time=_f_time, sleep=_f_sleep, monotonic=_f_monotonic, perf_counter=_f_monotonic)
 random_facade = _Facade(_random, SystemRandom=_FakeSystemRandom)
 os_facade = _Facade(_os, urandom=_f_urandom)
 
@@ -477,6 +502,11 @@ def install(mods):
         m.socket = socket_facade
         m.select = select_facade
     mods['dheat'].time = time_facade
+    # any other audited module that looks at the clock does so through the virtual one as well
+    import types as _types
+    for m in mods.values():
+        if isinstance(vars(m).get('time'), _types.ModuleType):
+            m.time = time_facade
     mods['kexdh'].random = random_facade
     mods['kexdh'].os = os_facade
     mods['ssh_socket'].os = os_facade
